@@ -278,9 +278,16 @@ fn create_semantic_token(
     token_modifier: u32,
 ) -> SemanticToken {
     let Position { line, character } = as_position(token.range.start, text);
-    let length = token
-        .range
-        .len()
+    // the length counts UTF-16 code units and does not include the line end of a comment
+    let token_text = &text[token.range.clone()];
+    let token_text = if matches!(token.token_type, TokenType::Comment(_)) {
+        token_text.trim_end_matches(['\n', '\r'])
+    } else {
+        token_text
+    };
+    let length = token_text
+        .encode_utf16()
+        .count()
         .try_into()
         .expect("Cannot convert range length to u32");
     let delta_line = line - previous_token_pos.line;
